@@ -9,6 +9,7 @@ import (
 	"os"
 
 	"github.com/folbricht/desync"
+	"github.com/spf13/pflag"
 )
 
 type verifCmdStore struct {
@@ -84,7 +85,10 @@ func VerifC07_CmdExtractCancel_E() {
 	dir := vTempDir()
 	target := dir + "/out"
 	old := []byte("previous")
-	os.WriteFile(target, old, 0644)
+	hadOld := vChoose("target-existed", 2) == 1
+	if hadOld {
+		os.WriteFile(target, old, 0644)
+	}
 	ctx, cancel := context.WithCancel(context.Background())
 	defer cancel()
 	switch vChoose("cancel", 3) {
@@ -95,13 +99,68 @@ func VerifC07_CmdExtractCancel_E() {
 	}
 	_, err := writeWithTmpFile(ctx, target, idx, st, nil, desync.AssembleOptions{N: 1})
 	vCover("returned")
-	b, _ := os.ReadFile(target)
+	b, rerr := os.ReadFile(target)
 	if err == nil {
 		vAssert(string(b) == string(blob), "extract reported success but the destination is not the blob")
+	} else if hadOld {
+		vAssert(rerr == nil && string(b) == string(old), "failed/interrupted extract changed the destination")
 	} else {
-		vAssert(string(b) == string(old), "failed/interrupted extract changed the destination")
+		vAssert(os.IsNotExist(rerr), "failed/interrupted extract left something at a destination path that did not exist")
 	}
 	for _, f := range vFSList(dir) {
 		vAssert(f == target, "temp file left behind after extract returned")
 	}
+}
+
+// verifCmdExtractSetup puts a two-chunk blob's chunks into a local store and its index into a
+// file on the model file system, and returns the options/arguments of `desync extract`.
+func verifCmdExtractSetup() (blob []byte, opt extractOptions, args []string, dir string) {
+	dir = vTempDir()
+	os.Mkdir(dir+"/store", 0755)
+	ls, _ := desync.NewLocalStore(dir+"/store", desync.StoreOptions{})
+	idx := desync.Index{Index: desync.FormatIndex{FeatureFlags: desync.CaFormatSHA512256, ChunkSizeMin: 1, ChunkSizeAvg: 1, ChunkSizeMax: 1}}
+	for c := 0; c < 2; c++ {
+		data := []byte{byte(0x41 + c)}
+		ch := desync.NewChunk(data)
+		vAssert(ls.StoreChunk(ch) == nil, "store setup")
+		idx.Chunks = append(idx.Chunks, desync.IndexChunk{ID: ch.ID(), Start: uint64(c), Size: 1})
+		blob = append(blob, data...)
+	}
+	f, _ := os.Create(dir + "/blob.caibx")
+	idx.WriteTo(f)
+	f.Close()
+	addStoreOptions(&opt.cmdStoreOptions, pflag.NewFlagSet("verif", pflag.ContinueOnError))
+	opt.n = 1
+	opt.stores = []string{dir + "/store"}
+	args = []string{dir + "/blob.caibx", dir + "/out"}
+	return
+}
+
+// VerifC08_CmdRunExtractCrash_E: the whole `desync extract` command (option handling, store
+// chain, index file, choice between in-place and temp-file mode) without --in-place; the process
+// dies before the k-th file-system mutation: the destination - absent or holding an older
+// file - keeps its previous state or holds the complete blob.
+func VerifC08_CmdRunExtractCrash_E() {
+	blob, opt, args, dir := verifCmdExtractSetup()
+	target := dir + "/out"
+	old := []byte("previous")
+	hadOld := vChoose("target-existed", 2) == 1
+	if hadOld {
+		os.WriteFile(target, old, 0644)
+	}
+	k := vChoose("crash-before-mutation", 14)
+	vCrashAt(k, -1, func() {
+		vCover("post-mortem")
+		b, err := os.ReadFile(target)
+		if hadOld {
+			vAssert(err == nil && (string(b) == string(old) || string(b) == string(blob)), "destination holds neither its previous content nor the complete blob after a crash")
+		} else {
+			vAssert(err != nil || string(b) == string(blob), "a partial extract target is visible after a crash at a destination that did not exist")
+		}
+	})
+	err := runExtract(context.Background(), opt, args)
+	vCover("completed")
+	vAssert(err == nil, "extract from a complete local store failed")
+	b, _ := os.ReadFile(target)
+	vAssert(string(b) == string(blob), "extract reported success but the destination is not the blob")
 }
